@@ -3,8 +3,9 @@
 spec/Discovery.tla.  Binding (real frappy.protocol.discovery.UDPListener on a FakeUDP socket):
   spec -> code : Gen_Discovery/GBSpec enumerates every glyph-class sequence up to MaxLen with, per budget
                  MAX - O, the set of outcomes the property allows; each (sequence, budget) is concretised
-                 twice (MAX_MESSAGE_LEN patched to measured overhead + budget; real 508 with an equipment id
-                 padded so that overhead = 508 - budget) and the constructor's outcome compared.
+                 with MAX_MESSAGE_LEN patched to measured overhead + budget and (shorter sequences) at the
+                 real 508 with an equipment id padded so that overhead = 508 - budget; the constructor's outcome
+                 and the messages of run() are compared with what TLC allows.
                  Gen_Discovery/GLSpec enumerates every datagram class sequence up to Depth with the expected
                  answers; replayed through run() with scripted recvfrom, compared after every datagram, a
                  final discover request proves the loop is still alive.
@@ -38,7 +39,6 @@ META = {
 
 REAL_MAX = 508          # the number in the property statement
 RECV_LIMIT = 1024
-LOOSE = ('discover_extra', 'oversized_discover')
 
 # ------------------------------------------------------------------ gamma tables
 
@@ -398,19 +398,20 @@ def signature(clause, case, trace, l):
 # ------------------------------------------------------------------ spec -> code: construction
 
 def emit_construction(cfg, first):
-    """Gen_Discovery/GBSpec -> list of [glyphs, [[b, dis, lo0, hi0, lo4, hi4], ...]] (lines without quotes:
-    parsed directly, the generic reader of core is too slow for millions of lines)"""
+    """Gen_Discovery/GBSpec -> (TLCResult, payload lines); a payload is the JSON text
+    [glyphs, [[b, dis, lo0, hi0, lo4, hi4], ...]], parsed by the replay workers (the generic reader of core
+    is too slow for millions of lines)"""
     r = run_tlc('Gen_Discovery', cfg, workers=1, timeout=1100, heap='2g',
                 env={'DISCOVERY_FIRST': str(first)} if first else None)
     if r.violated or not r.ok:
         raise MachineryError(f'behaviour emission Gen_Discovery/{cfg} failed: {r.violated or r.error}\n{r.out[-2000:]}')
     # TLC prints <<"BEH", "[[..]]">> on one line or wrapped after the tag
-    behs = [json.loads(line[line.index('"[[') + 1:line.rindex('"')]) for line in r.out.splitlines()
-            if line.endswith('>>') and '"[[' in line]
-    if len(behs) != r.distinct:
-        raise MachineryError(f'behaviour emission Gen_Discovery/{cfg}: {len(behs)} lines for {r.distinct} states')
+    lines = [line[line.index('"[[') + 1:line.rindex('"')] for line in r.out.splitlines()
+             if line.endswith('>>') and '"[[' in line]
     r.out = ''
-    return r, behs
+    if len(lines) != r.distinct:
+        raise MachineryError(f'behaviour emission Gen_Discovery/{cfg}: {len(lines)} lines for {r.distinct} states')
+    return r, lines
 
 
 def _pad_eq(target):
@@ -457,15 +458,14 @@ def _build_clause(obs_en, r, g, dis, lo, hi):
 
 
 def _replay_build(item):
-    idx, beh, seed, modes = item
-    g, exp = beh
+    idx, line, seed, real_upto = item
+    g, exp = json.loads(line)
     bad = {}
     n = 0
-    light = len(g) > 6                    # the two longest layers: patched constant only, constructor only
-    if light:
-        modes = modes[:1]
+    light = len(g) > 6                    # the two longest layers: constructor only, no run()
+    modes = ['patched', 'real508'] if len(g) <= real_upto else ['patched']
     if len(g) > 7:
-        exp = [e for k, e in enumerate(exp) if (k + idx) % 3 == 0]      # every third budget, rotating
+        exp = [e for k, e in enumerate(exp) if (k + idx) % 4 == 0]      # every fourth budget, rotating
     for b, dis, lo0, hi0, lo4, hi4 in exp:
         for mode in modes:
             salt = seed + idx + 7 * b + (0 if mode == 'patched' else 1)
@@ -513,7 +513,7 @@ def _replay_build(item):
                 else:
                     bad[key] = {'sig': sig, 'case': case, 'trace': tr, 'failed_at': l, 'count': 1,
                                 'allowed': {'b': b, 'may_disable': bool(dis), 'prefix_len': [lo, hi]}}
-    return n, list(bad.values())
+    return n, list(bad.values()), g
 
 
 # ------------------------------------------------------------------ spec -> code: receive loop
@@ -762,20 +762,22 @@ def run(chk):
         if os.environ.get('VERIF_PROGRESS'):
             print('  stage %s: %.1fs' % (name, time.time() - t0[0]), flush=True)
         t0[0] = time.time()
-    chk.rule = ('construction: every glyph-class sequence up to the bound (6 classes) x every budget -2..10 x '
-                '{patched MAX_MESSAGE_LEN, real 508 with padded equipment id} executed on the real UDPListener and '
+    chk.rule = ('construction: every glyph-class sequence (6 classes) of length <= %d x every budget MAX-O in -2..10 '
+                '(length 8: every fourth budget, rotating) with MAX_MESSAGE_LEN patched to measured overhead + '
+                'budget, and for length <= %d also at the real 508 with an equipment id padded to overhead = 508 - '
+                'budget, executed on the real UDPListener (port lists with a 5 digit / 1 digit widest port) and '
                 'compared with the outcomes TLC allows, plus random concrete descriptions validated by '
                 'Trace_Discovery; loop: every datagram class sequence up to the depth bound x 0..2 TCP ports replayed '
                 'through run() and compared per datagram, plus random byte strings validated by Trace_Discovery. '
                 'distinct = glyph sequence / class sequence / random case; non-trivial = at least one message or '
-                'datagram was processed')
+                'datagram was processed') % ((5, 4) if quick else (8, 6))
     mode_ascii = calibrate()
     os.environ['DISCOVERY_ASCII'] = '1' if mode_ascii else '0'
     chk.assumptions.append('JSON encoding of _getMessage calibrated: ensure_ascii=%s width table' % mode_ascii)
     chk.assumptions.append('descriptions without lone surrogates; sendto/recvfrom never fail')
 
     # all TLC jobs of the design / emission stage are started together (each is a JVM of its own)
-    ex = ThreadPoolExecutor(4 if quick else 5)
+    ex = ThreadPoolExecutor(4 if quick else 8)
     parsed = [ex.submit(sany, m) for m in ('Discovery', 'Gen_Discovery', 'Trace_Discovery')]
     mc = [ex.submit(model_check, 'Discovery', 'MC_Discovery_quick.cfg' if quick else 'MC_Discovery_thorough.cfg',
                     timeout=1100),
@@ -787,7 +789,6 @@ def run(chk):
     gen_loop = ex.submit(emit_behaviours, 'Gen_Discovery', 'Gen_Discovery_loop_quick.cfg' if quick else
                          'Gen_Discovery_loop_thorough.cfg', maximal_only=False, timeout=600)
     shards = [ex.submit(emit_construction, cfg, f) for f in ([0] if quick else range(1, 7))]
-    ex.shutdown(wait=False)
 
     # 1 design checks: proposed design holds, each as-implemented deviation is refuted by TLC
     for f in parsed:
@@ -799,36 +800,39 @@ def run(chk):
         if r.violated != ('invariant', inv):
             raise MachineryError(f'the specification lost its teeth: as-implemented design {dev} does not '
                                  f'violate {inv}: {r.violated or r.error}')
-    stage('design checks')
+    gen_loop = gen_loop.result()
+    shards = [f.result() for f in shards]
+    ex.shutdown(wait=True)      # no TLC thread is alive when worker processes are forked
+    stage('design checks and behaviour emission')
     # 2 spec -> code, construction
-    modes = ['patched', 'real508']
+    real_upto = 4 if quick else 6       # longer sequences only with the patched constant
     seen_empty = False
     nb = 0
-    for f in shards:
-        r, behs = f.result()
+    for r, lines in shards:
         chk.add_tlc(r)
         items = []
-        for beh in behs:
-            if not beh[0]:
+        for line in lines:
+            if line.startswith('[[],'):
                 if seen_empty:
                     continue
                 seen_empty = True
-            items.append((nb, beh, chk.seed, modes))
+            items.append((nb, line, chk.seed, real_upto))
             nb += 1
-        for (idx, beh, _, _), (n, bad) in zip(items, pool_map(_replay_build, items)):
+        del lines[:]
+        for n, bad, g in pool_map(_replay_build, items):
             chk.impl_traces += n
             chk.evaluations += n - 1
-            chk.case(int('7' + ''.join(map(str, beh[0]))), True)
+            chk.case(int('7' + ''.join(map(str, g))), True)
             for b in bad:
                 for _ in range(b.pop('count')):
                     chk.violation(b['sig'], b)
-        if behs:
-            chk.sample({'construction_case': dict(zip(('glyphs', 'allowed_b_dis_lo0_hi0_lo4_hi4'), behs[len(behs) // 2]))})
-        del behs[:]
+        if items:
+            chk.sample({'construction_case': dict(zip(('glyphs', 'allowed_b_dis_lo0_hi0_lo4_hi4'),
+                                                      json.loads(items[len(items) // 2][1])))})
 
     stage('construction replay')
     # 3 spec -> code, receive loop
-    r, behs = gen_loop.result()
+    r, behs = gen_loop
     chk.add_tlc(r)
     items = [(i, beh, chk.seed) for i, beh in enumerate(behs)]
     for (i, beh, _), bad in zip(items, pool_map(_replay_loop, items)):
@@ -840,11 +844,11 @@ def run(chk):
 
     stage('loop replay')
     # 4 code -> spec
-    n = 1500 if quick else 20000
+    n = 1200 if quick else 12000
     res = pool_map(_random_build, [(chk.seed * 1000003 + i, mode_ascii) for i in range(n)])
     validate(chk, [p for ps in res for p in ps], 'build')
     stage('random construction traces')
-    n = 1500 if quick else 20000
+    n = 1200 if quick else 12000
     res = pool_map(_random_loop, [chk.seed * 1000033 + 17 + i for i in range(n)])
     pairs = [p for ps in res for p in ps]
     validate(chk, pairs, 'loop', selftest=True)
